@@ -17,7 +17,7 @@ func c07Source(r *fw.Rand) (string, string) {
 	big := func() string {
 		return fmt.Sprint(fw.PickT(r, []int64{100, 1000, 29999, 30001, 100000, 1 << 31, 1 << 40, (1 << 62), 9223372036854775807}))
 	}
-	switch k := r.Intn(26); {
+	switch k := r.Intn(27); {
 	case k < 3:
 		return gen.Doubling(r), "doubling"
 	case k < 5:
@@ -62,6 +62,14 @@ func c07Source(r *fw.Rand) (string, string) {
 	case k == 23, k == 24:
 		// values without compiled code (restored from JSON / built by the host), compiled lazily
 		return r.Pick([]string{"lx", "lf(0)", "ghp", "gself + 1", "i=0; while i < 100000 { i = i + 1; gfresh }; i", "i=0; s=0; while i < 2000 { i = i + 1; s = s + lok(i) }; s", "lx + lf(0)", "i=0; while i < 300 { i=i+1; gok }; lx"}), "lazy-values"
+	case k == 25:
+		// cheap instructions that buy big texts: an array of uncharged (< 256 byte) strings printed
+		// through a template, that text repeated in an array, and the array shown in every part of
+		// one template. The work of printing has to stop at the budget, not after the last part.
+		n := fw.PickT(r, []int{1, 3, 12, 40, 200})
+		m := fw.PickT(r, []int{100, 512})
+		part := r.Pick([]string{"{zb}", "{% zb %}", "{[zb]}", "x{zb}"})
+		return "zs = '" + strings.Repeat("x", 250) + "'; za = [zs]*" + fmt.Sprint(m) + "; zt = `{za}`; zb = [zt]*512; zu = `" + strings.Repeat(part, n) + "`; 1", "template-of-big-arrays"
 	default:
 		return gen.ValidProgram(r, 3, false), "valid"
 	}
@@ -345,7 +353,7 @@ func init() {
 			return map[string]int64{"budget_cases": 6000, "budget_limit_errors": 1500, "budget_completed": 500, "parse_budget_cases": 1500, "parse_limit_errors": 200, "capacity_accepted": 500, "capacity_rejected": 300}
 		},
 		HangWall: 60,
-		Rule:        "4/6 budget cases: 24 adversarial families (doubling strings/arrays/templates, huge dice counts incl. counter overflow, exploding WoD/DC with enormous sides, direct/mutual/computed recursion, recursive DefaultDiceSideExpr, native loops driven by an operand, huge repeat/range/slice bounds, 4000-term dice sums, endless loops) × OpCountLimit in {50,1000,30000} × min/max/random mode: the work meter (dispatches in all VMs + dice drawn) must stay ≤ 8·limit+10000, the counter must be monotone and non-negative at every dispatch, a run over the limit must return an error, and on success work ≤ 8·(counter+1). 1/6 parse budget: expressions evaluated ≤ limit+1 and an error once exceeded. 1/6 capacity ladders around every built-in limit (8192 instructions in main/function/computed buffers, 1000 stack slots, 20 block/template levels, 512 elements): accepted programs must return the value of the whole program and must not have had instructions dropped. distinct = hash(case)",
+		Rule:        "4/6 budget cases: 25 adversarial families (doubling strings/arrays/templates, big arrays shown in every part of one template, huge dice counts incl. counter overflow, exploding WoD/DC with enormous sides, direct/mutual/computed recursion, recursive DefaultDiceSideExpr, native loops driven by an operand, huge repeat/range/slice bounds, 4000-term dice sums, endless loops) × OpCountLimit in {50,1000,30000} × min/max/random mode: the work meter (dispatches in all VMs + dice drawn) must stay ≤ 8·limit+10000, the counter must be monotone and non-negative at every dispatch, a run over the limit must return an error, and on success work ≤ 8·(counter+1). 1/6 parse budget: expressions evaluated ≤ limit+1 and an error once exceeded. 1/6 capacity ladders around every built-in limit (8192 instructions in main/function/computed buffers, 1000 stack slots, 20 block/template levels, 512 elements): accepted programs must return the value of the whole program and must not have had instructions dropped. distinct = hash(case)",
 		Assumptions: []string{"'work' = instruction dispatches + dice drawn; allocation volume is covered through the address-space limit of C01", "capacities as declared by the code: 8192 instructions, 1000 slots, 20 levels, 512 elements"},
 	})
 }
